@@ -52,6 +52,9 @@ class State(object):
         s.dropped = self.dropped
         s.frame_stack = list(self.frame_stack)
         s.tags = set(self.tags)
+        # choices still to be replayed in helper functions without a contract (interp.exec_block)
+        s.forced_choices = list(getattr(self, 'forced_choices', ()))
+        s.taken_choices = list(getattr(self, 'taken_choices', ()))
         return s
 
     # --- assumptions and obligations
